@@ -121,7 +121,8 @@ def case_big(cid, kind, rng, capk, threads, extra_slots):
 
 
 def gen_cases(ctx):
-    rng = random.Random(ctx.seed * 15485863 + 1405)
+    # (C05 and C14 run different cases of the family)
+    rng = random.Random(ctx.seed * 15485863 + 1405 + (7919 if ctx.pid == "C05" else 0))
     thorough = ctx.tier == "thorough"
     cases = []
     n = 0
@@ -135,8 +136,14 @@ def gen_cases(ctx):
             cases.append(case_retry_nested(f"ar{n}", kind, rng)); n += 1
     for _ in range(12 if thorough else 6):
         cases.append(case_term_retry(f"at{n}", rng)); n += 1
-    bigs = [("bdd", 2, 1, 5000), ("bcdd", 1, 2, 3000)] if not thorough else \
-           [("bdd", 2, 1, 5000), ("bcdd", 1, 2, 3000), ("bdd", 3, 4, 0), ("bcdd", 2, 1, 70000)]
+    # (quick tier: C05 runs the manager with two chunks - the hand-over of a local list needs 65536 frees by one
+    # thread -, C14 only the one with a single chunk; C14's quick tier has little time left)
+    if thorough:
+        bigs = [("bdd", 2, 1, 5000), ("bcdd", 1, 2, 3000), ("bdd", 3, 4, 0), ("bcdd", 2, 1, 70000)]
+    elif ctx.pid == "C14":
+        bigs = [("bcdd", 1, 2, 3000)]
+    else:
+        bigs = [("bdd", 2, 1, 5000), ("bcdd", 1, 2, 3000)]
     for kind, capk, threads, extra in bigs:
         cases.append(case_big(f"ab{n}", kind, rng, capk, threads, extra)); n += 1
     return cases
